@@ -21,4 +21,5 @@ void c2() { c3(); g = 2; }
 void c1() { c2(); g = 1; }
 void interrupt irqa() { c1(); }
 void interrupt irqb() { h(); }
-void main() { g = 0; }
+void wide() { c5(); c9(); c13(); h(); k(); }
+void main() { g = 0; wide(); }
